@@ -22,7 +22,7 @@ def apply(seq, o):
 
 def replay(case):
     idx, score, ops = case
-    seq = build(score, "abs" if idx % 2 == 0 else "rel")
+    seq = build(score, ("abs", "rel", "both")[idx % 3])
     lines = []
     first = True
     for o in ops:
